@@ -20,7 +20,7 @@ TEXT = ("Typestate analysis of the four-state field Delta.status, exhaustive ove
         "after a marking step has run. A5: the object-availability predicate returns true only on index membership or a verified read. "
         "A7: the marking pass runs the dependency check for every Pending block of the whole block map, and the applier inserts every "
         "record of the block it applies. "
-        "Does not decide equality of incremental refreshes with a full reload over histories."
+        "A4e: no call removes entries from the block map except the clear of reload / reload_until. Does not decide equality of incremental refreshes with a full reload over histories."
         " A2c also covers conditional combinators on the presence test (Option::filter on a flag). A5b: nothing the availability predicate reaches looks an object up in the stage or the LRU cache (availability means stored). A5c: every revision kind write_object stores nothing for is answered available.")
 TECHNIQUE = 'static analysis over rustc MIR: typestate of Delta.status (edge dominance + reachability with pass edges removed, loop and all()/any() closure forms), transition-table extraction, sibling agreement of the three loaders'
 TRUSTED = ["rustc nightly MIR", "derive(PartialEq) on the fieldless enum Status compares discriminants",
@@ -75,8 +75,9 @@ def chain_filter_status(facts, t):
     from ..conds import closure_result_lits
     from ..common import iter_chain
     st = None
+    from ..conds import success_result_lits, expand_predicates, _normalise_lit
     for x in iter_chain(t):
-        if callee_name(x) != "filter" or len(x[2]) < 2:
+        if callee_name(x) not in ("filter", "filter_map") or len(x[2]) < 2:
             continue
         c_ = x[2][1]
         hops = 0
@@ -86,7 +87,11 @@ def chain_filter_status(facts, t):
         fcb = facts.body(c_[1]) if c_[0] == "closure" else None
         if fcb is None:
             continue
-        s_ = status_from_lits(closure_result_lits(fcb, facts, True))
+        ls_ = list(closure_result_lits(fcb, facts, True) if callee_name(x) == "filter" else success_result_lits(fcb, facts))
+        for l_ in ls_:
+            _normalise_lit(l_)      # `pred(x).then(|| ..)` is Some exactly when pred(x)
+        ls_ += expand_predicates(ls_, facts, fcb)       # a named predicate closure of the enclosing function, captured and called
+        s_ = status_from_lits(ls_)
         if s_ is not None:
             st = s_
     return st
@@ -325,13 +330,40 @@ def run(facts, res):
         cfg = cfg_of(b)
         clears = [bi for bi, t in b.calls() if t.callee is not None and t.callee.name == "clear"
                   and "deltas" in field_path(arg_term(b, t, 0))[0]]
-        inserts = [bi for bi, t in b.calls() if t.callee is not None and t.callee.name == "insert"
+        inserts = [bi for bi, t in b.calls() if t.callee is not None and t.callee.name in ("insert", "extend")
                    and "deltas" in field_path(arg_term(b, t, 0))[0]]
         ok = bool(clears) and bool(inserts) and all(any(cfg.dominates(c, i) for c in clears) for i in inserts)
         n4 += 1
         res.instance("A4", "%s: deltas.clear() dominates every deltas.insert(): %s" % (name, ok), b.loc())
         if not ok:
             res.violation("A4", "%s|block-map-not-cleared" % name, "%s parses blocks into a map that was not cleared first" % name, b.loc())
+    # A4c: the block map only grows between two full reloads. Who-may-shrink over the whole crate: a removing call (retain, remove,
+    # clear, pop_*, drain, split_off, mem::take) whose receiver is the `deltas` field is accepted only as the `clear` of reload /
+    # reload_until that the re-parse follows. A refresh that forgets the blocks a (lagging, partial) listing does not report leaves
+    # applied blocks whose parents are unknown: the heads change and the next commit records parents that are not heads.
+    SHRINK = {"retain", "remove", "remove_entry", "clear", "pop_first", "pop_last", "drain", "split_off", "take", "replace", "swap", "truncate", "drain_filter", "extract_if"}
+    n4c = 0
+    for ob in facts.repo_bodies():
+        for bi, t in ob.calls():
+            if t.callee is None or t.callee.name not in SHRINK or not t.args:
+                continue
+            fp_ = field_path(arg_term(ob, t, 0, 16))[0]
+            up_ = [x for x in walk(arg_term(ob, t, 0, 16)) if x[0] == "upvar" and x[2].split(".")[-1] == "deltas"]
+            if "deltas" not in fp_ and not up_:
+                continue
+            if fp_ and fp_.index("deltas") != len(fp_) - 1 and not up_:
+                continue        # a field *of* a block (delta.changes.take()), not the block map itself
+            if "melda::Delta>" not in (t.callee.full + " " + " ".join(t.callee.args) + " " + (t.callee.self_ty or "")):
+                continue        # a collection *derived from* the block map (the set of candidate heads), not the map
+            n4c += 1
+            owner = ob.path if ob.kind != "closure" else ob.path.split("::{closure")[0]
+            ok_ = t.callee.name == "clear" and owner in ("melda::Melda::reload", "melda::Melda::reload_until")
+            res.instance("A4", "%s: %s on the block map is the clear of a full reload: %s" % (ob.path, t.callee.name, ok_), ob.loc(t.line))
+            if not ok_:
+                res.violation("A4", "%s|block-map-shrinks:%s" % (owner, t.callee.name),
+                              "%s removes entries from the block map (%s) outside a full reload: blocks the replica has applied become unknown, their "
+                              "children lose a parent, and the heads / the parents of the next commit change" % (owner, t.callee.name), ob.loc(t.line))
+    res.floor("A4", "removing calls on the block map (the clears of reload / reload_until)", n4c, 2)
     # A4b: no early success - every Ok return of reload / refresh / reload_until lies behind the (reset,) marking and
     # applying steps, so a held-back block is re-examined by *every* successful refresh, whatever arrived
     for name in ("melda::Melda::reload", "melda::Melda::refresh", "melda::Melda::reload_until"):
@@ -480,14 +512,15 @@ def run(facts, res):
             # pipeline form (`listing.iter().filter_map(parse)...for_each(insert)`): the per-item steps run in the closures of one
             # adaptor chain; a `for_each` pipeline cannot abort the operation, a `try_for_each` / collect-into-Result one can
             for s_ in cg.sites[body.path]:
-                if s_.callee is None or s_.callee.name not in ("for_each", "try_for_each", "collect", "try_fold") or not s_.term.args:
+                if s_.callee is None or s_.callee.name not in ("for_each", "try_for_each", "collect", "try_fold", "extend") or not s_.term.args:
                     continue
                 chain_closures = []
-                for x in walk(arg_term(body, s_.term, 0, 40)):
-                    if x[0] == "closure":
-                        cb_ = facts.body(x[1])
-                        if cb_ is not None:
-                            chain_closures.append(cb_)
+                for ai_ in range(len(s_.term.args) if s_.callee.name == "extend" else 1):
+                    for x in walk(arg_term(body, s_.term, ai_, 40)):
+                        if x[0] == "closure":
+                            cb_ = facts.body(x[1])
+                            if cb_ is not None:
+                                chain_closures.append(cb_)
                 chain_closures += list(s_.closures)
                 hit = set()
                 for cb_ in chain_closures:
@@ -498,7 +531,7 @@ def run(facts, res):
                             hit |= reached(cs_)
                 if hit:
                     found = True
-                    if s_.callee.name != "for_each":
+                    if s_.callee.name not in ("for_each", "extend"):
                         aborts |= hit
         return aborts if found else None
     groups = [("block listing", [facts.body(n) for n in ("melda::Melda::reload", "melda::Melda::refresh", "melda::Melda::reload_until")],
